@@ -7,6 +7,9 @@ c  consistency with the exact energy through the library's own local->synodic ma
    (E_true(L(c)) - E_true(L(0)))/gamma^2 equals the polynomial degree by degree (n = 2..N) with c_n := _compute_cn(n),
    (iv) second time derivative of the mapped position along Hamilton's equations == _crtbp_accel at the mapped state
 d  pipeline wiring: builder by point kind, form name 'physical'
+
+c(i)-gamma  the gamma of the local frame is the equilibrium's distance ratio (C04.b quintic rule, re-filed)
+d-memo  caches on the Hamiltonian construction path are keyed by point and degree (hv.memo)
 """
 from __future__ import annotations
 
